@@ -166,10 +166,21 @@ func (p *Program) lemmaObligations(l *Lemma) (out []*Obligation) {
 	base := mk("base", map[string]T{l.Ind: "0"}, nil)
 	// step: assume the statement for n (n >= 0), prove it for n+1
 	step := mk("step", map[string]T{l.Ind: "(+ c_" + l.Ind + " 1)"}, func(env *specEnv) T {
-		saved := env.vars[l.Ind]
-		env.vars[l.Ind] = VInt{"c_" + l.Ind}
-		h := env.evalBool(l.E)
-		env.vars[l.Ind] = saved
+		// induction hypothesis: the statement at n, for ALL values of the other parameters (the usual
+		// strengthening; needed when the step uses the statement on a different view, e.g. b[1:])
+		ex, st := env.ex, env.st
+		env2 := env.f.baseEnv(st, st)
+		binders := p.bindLemmaVars(ex, st, env2, l, "ih_", false, map[string]T{l.Ind: "c_" + l.Ind})
+		var keep []string
+		for _, b := range binders {
+			if b != "(ih_"+l.Ind+" Int)" {
+				keep = append(keep, b)
+			}
+		}
+		h := env2.evalBool(l.E)
+		if len(keep) > 0 {
+			h = "(forall (" + strings.Join(keep, " ") + ") " + h + ")"
+		}
 		return tAnd(tLe("0", "c_"+l.Ind), h)
 	})
 	return []*Obligation{base, step}
